@@ -6,7 +6,7 @@
    checked by the monitors of C01/C10; the interleaving with manager iterations is monitor-only. *)
 From Coq Require Import ZArith NArith Bool List.
 From Mysync Require Import Gtid.Interval Gtid.GtidSet Base.Prog Base.ProgFacts Base.Config
-  Procs.NodeOps Procs.ActiveNodes Procs.Switchover Procs.Manager Procs.Recovery Proofs.ManagerProofs Proofs.RecoveryProofs.
+  Procs.NodeOps Procs.ActiveNodes Procs.Switchover Procs.Manager Procs.Recovery Proofs.ManagerProofs Proofs.RecoveryProofs Proofs.PromotedProofs.
 Import ListNotations.
 Open Scope Z_scope.
 
@@ -26,7 +26,7 @@ Theorem C11_mark_cleared_only_when_clean : forall me m clk tr o,
     has_ev tr (fun e => ev_call e = Sql master SGtidExecuted /\ ev_resp e = RGtid mg) /\
     permanently_lost rs mg = false /\
     has_ev tr (fun e => ev_call e = Sql me SIsReadOnly /\ exists s, ev_resp e = RFlags true s) /\
-    (master = me \/ has_ev tr (fun e => ev_call e = Sql me SWaitingAck /\ ev_resp e <> RBool true)).
+    (master = me \/ has_ev tr (fun e => ev_call e = Sql me SWaitingAck /\ ev_resp e = RBool false)).
 Proof. exact mark_cleared_only_when_clean. Qed.
 Print Assumptions C11_mark_cleared_only_when_clean.
 
@@ -41,3 +41,10 @@ Theorem C11_marked_host_is_not_active : forall cfg env recovery mgtid mem h ns,
   calc_active_host cfg env (Some recovery) mgtid mem (h, ns) = Ret (false, mem).
 Proof. exact marked_host_is_not_active. Qed.
 Print Assumptions C11_marked_host_is_not_active.
+
+(* a host marked for recovery is not in the computed list (C11_marked_host_is_not_active), and only members of the list that performSwitchover is given are ever made writable by it: a marked host is not promoted under a list computed after the mark *)
+Theorem C11_only_listed_hosts_are_promoted : forall cfg env sw mem tr o,
+  runs (perform_switchover cfg env sw mem) tr o ->
+  forall e h, In e tr -> ev_call e = Sql h SSetWritable -> In h (se_active env).
+Proof. exact promoted_host_is_listed. Qed.
+Print Assumptions C11_only_listed_hosts_are_promoted.
